@@ -255,16 +255,80 @@ def run_c16(tier):
             if m.get('results') != want:
                 chk.correspondence_mismatch('Files.processMains = FileProcessor trace (files parsed, names visible)', casej, want, m)
         include_errors(chk, root)
+        naming_cases(chk, root)
     finally:
         shutil.rmtree(root, ignore_errors=True)
     return chk.finish()
 
 
 def classify_c16(case, detail):
-    """D26: isar xi:include of a missing or cyclic file is only a warning (pinned by test_isar.py)"""
+    """D26: isar xi:include of a missing or cyclic file is only a warning (pinned by test_isar.py);
+    D119: two different files of one base name cannot be used together (outputs are named after the base name)"""
     if case.get('syntax') == 'isar' and detail.get('rc') == 0:
         return 'D26'
+    if case.get('kind') == 'two files of one base name' and 'two different files named' in detail.get('stderr', ''):
+        return 'D119'
     return None
+
+
+def naming_cases(chk, root):
+    """file names and include lines (defects D86, D91, D92, D101): split schemas that must compile to the same bytes as their concatenation"""
+    d = os.path.join(root, 'naming')
+    os.makedirs(d)
+    cases = [
+        ('file names with a dash (header guards)',
+         {'msg-base.prophy': 'struct Bb { u8 b; };\n', 'msg-ext.prophy': '#include "msg-base.prophy"\nstruct Ee { Bb b; u16 e; };\n'},
+         'struct Bb { u8 b; };\nstruct Ee { Bb b; u16 e; };\n', 'msg-ext', 'Ee', ['cpp']),
+        ('include line followed by a quoted word',
+         {'b.prophy': 'struct B { u8 b; };\n', 'a.prophy': '#include "b.prophy" // the "base" types\nstruct A { B b; u16 e; };\n'},
+         'struct B { u8 b; };\nstruct A { B b; u16 e; };\n', 'a', 'A', ['python', 'cpp']),
+        ('names of a file included by an included file',
+         {'c.prophy': 'struct C { u8 c; };\nconst K = 3;\n', 'b.prophy': '#include "c.prophy"\nstruct B { C c; };\n',
+          'a.prophy': '#include "b.prophy"\nstruct A { B b; C c[K]; u16 e; };\n'},
+         'struct C { u8 c; };\nconst K = 3;\nstruct B { C c; };\nstruct A { B b; C c[K]; u16 e; };\n', 'a', 'A', ['python', 'cpp']),
+        ('two files of one base name',
+         {'common/types.prophy': 'struct P { u64 p; };\n', 'net/types.prophy': 'struct Q { u16 q; };\n',
+          'app.prophy': '#include "common/types.prophy"\n#include "net/types.prophy"\nstruct A { P p; Q q; u8 z; };\n'},
+         'struct P { u64 p; };\nstruct Q { u16 q; };\nstruct A { P p; Q q; u8 z; };\n', 'app', 'A', ['python']),
+    ]
+    for k, (kind, files, single, main, typ, outputs) in enumerate(cases):
+        cd = os.path.join(d, 'n%d' % k)
+        os.makedirs(os.path.join(cd, 'one'))
+        for n, t in files.items():
+            os.makedirs(os.path.dirname(os.path.join(cd, n)) or cd, exist_ok=True)
+            with open(os.path.join(cd, n), 'w') as f:
+                f.write(t)
+        with open(os.path.join(cd, 'one', 'one.prophy'), 'w') as f:
+            f.write(single)
+        casej = {'kind': kind, 'files': files, 'single_file': single}
+        chk.count(('naming', kind), True)
+        chk.bump('naming:' + kind)
+        out = os.path.join(cd, 'out')
+        os.makedirs(out)
+        outs = (['--python_out', out] if 'python' in outputs else []) + (['--cpp_full_out', out, '--cpp_out', out] if 'cpp' in outputs else [])
+        inputs = [n for n in files if '/' not in n]     # files in sub-directories are reached through the includes only
+        rc, so, se = run_cli(['-I', cd] + outs + [os.path.join(cd, n) for n in inputs], cd)
+        rc1, _, se1 = run_cli(['--python_out', os.path.join(cd, 'one'), os.path.join(cd, 'one', 'one.prophy')], cd)
+        if rc1 != 0:
+            raise core.Infra('single-file reference did not compile: ' + se1[:300])
+        if rc != 0:
+            chk.property_violation(casej, {'what': 'the split schema is refused although its concatenation compiles', 'stderr': se[:300]}, classify_c16)
+            continue
+        if 'python' in outputs:
+            try:
+                mods = import_package(out, [os.path.splitext(os.path.basename(n))[0] for n in files])
+                ref = import_package(os.path.join(cd, 'one'), ['one'])['one']
+                a, b = getattr(mods[main], typ)(), getattr(ref, typ)()
+                if a.encode('<') != b.encode('<') or [f.name for f in a._descriptor] != [f.name for f in b._descriptor]:
+                    chk.property_violation(casej, {'what': 'split and single-file schemas encode the default message differently'})
+            except Exception as ex:  # noqa
+                chk.property_violation(casej, {'what': 'generated Python of the split schema is unusable: %s: %s' % (type(ex).__name__, str(ex)[:200])})
+        if 'cpp' in outputs:
+            for src in (main + '.ppf.cpp', main + '.pp.cpp'):
+                p = subprocess.run(['g++', '-std=c++11', '-fsyntax-only', '-I' + os.path.join(REPO, 'prophy_cpp', 'include'), '-I' + out, os.path.join(out, src)],
+                                   stdout=subprocess.PIPE, stderr=subprocess.STDOUT, timeout=300)
+                if p.returncode != 0:
+                    chk.property_violation(casej, {'what': 'generated C++ of the split schema does not compile (%s)' % src, 'log': p.stdout.decode(errors='replace')[:400]})
 
 
 def include_errors(chk, root):
@@ -386,6 +450,39 @@ def isar_runs(chk, root):
                 chk.property_violation(casej, {'what': 'generated files differ from the run with hash seed 0', 'files': diff})
 
 
+def collision_cases(chk, root):
+    """independent inputs must not influence each other's outputs: two inputs of one base name (D84), a generator error for one
+    input (D85) - whatever the order on the command line, the same files with the same bytes"""
+    d = os.path.join(root, 'coll')
+    cases = [
+        ('two inputs of one base name', {'d1/x.prophy': 'struct A { u8 a; };\n', 'd2/x.prophy': 'struct B { u64 b; };\n'}, ['d1/x.prophy', 'd2/x.prophy'],
+         ['--python_out', '@O', '--cpp_full_out', '@O']),
+        ('one input the C++ full generator refuses', {'good.prophy': 'struct Good { u8 a; };\n', 'two.prophy': 'struct Two { u8 n; u8 a<@n>; u16 b<@n>; };\n'},
+         ['good.prophy', 'two.prophy'], ['--python_out', '@O', '--cpp_full_out', '@O']),
+    ]
+    for k, (kind, files, inputs, outs) in enumerate(cases):
+        results = []
+        for oi, order in enumerate((inputs, list(reversed(inputs)))):
+            cd = os.path.join(d, 'c%d_%d' % (k, oi))
+            for n, t in files.items():
+                os.makedirs(os.path.dirname(os.path.join(cd, n)), exist_ok=True)
+                with open(os.path.join(cd, n), 'w') as f:
+                    f.write(t)
+            out = os.path.join(cd, 'out')
+            os.makedirs(out)
+            rc, so, se = run_cli([a.replace('@O', out) for a in outs] + [os.path.join(cd, n) for n in order], cd)
+            results.append((rc, tree_hash(out), sorted(os.listdir(out))))
+        casej = {'kind': kind, 'files': files, 'inputs': inputs}
+        chk.count(('collision', kind), True)
+        chk.bump('collision:' + kind)
+        if results[0] != results[1]:
+            chk.property_violation(casej, {'what': 'the two command-line orders of the same inputs leave different outputs',
+                                           'first': [results[0][0], results[0][2]], 'reversed': [results[1][0], results[1][2]]})
+        elif results[0][0] == 0 and kind == 'two inputs of one base name':
+            chk.property_violation(casej, {'what': 'two inputs of one base name were compiled into one set of files: one input left no output',
+                                           'files': results[0][2]})
+
+
 def run_c20(tier):
     chk = core.Check('C20', tier)
     chk.rule = ('multi-file and single-file schemas compiled by `python -m prophyc` (python + C++ full + C++ raw outputs) under different '
@@ -450,6 +547,7 @@ def run_c20(tier):
                     chk.property_violation(casej, {'what': 'set of generated files differs', 'reference': sorted(ref), 'this': sorted(produced)})
         patched_runs(chk, root)
         isar_runs(chk, root)
+        collision_cases(chk, root)
         for (casej, impl), m in zip(crows, client.batch(creqs)):
             chk.corr_compared += 1
             want = [{'leaf': r['leaf'] + '.prophy', 'visible': r['visible'], 'parsed': r['parsed']} for r in impl] if isinstance(impl, list) else impl
